@@ -416,6 +416,12 @@ func (el *eventloop) close(c *conn, err error) error {
 		return errors.New(strings.TrimSuffix(errStr.String(), " | "))
 	}
 
+	if action == Shutdown {
+		// This method is also called from places that can't hand the returned error
+		// over to the poller (a failed Conn.Write/AsyncWrite, Conn.Flush, EventLoop.Close),
+		// make sure that the Shutdown action from OnClose always takes effect.
+		el.engine.shutdown(nil)
+	}
 	return el.handleAction(c, action)
 }
 
